@@ -13,6 +13,7 @@ import (
 	"verif/harness/checks/c08"
 	"verif/harness/checks/c09"
 	"verif/harness/checks/c10"
+	"verif/harness/checks/c12"
 	"verif/harness/checks/c13"
 	"verif/harness/checks/c16"
 	"verif/harness/checks/c17"
@@ -31,6 +32,7 @@ var checks = map[string]func(*vf.Check){
 	"C08": c08.Run,
 	"C09": c09.Run,
 	"C10": c10.Run,
+	"C12": c12.Run,
 	"C13": c13.Run,
 	"C16": c16.Run,
 	"C17": c17.Run,
